@@ -84,6 +84,15 @@ def make_assignment(cx, cname, depth, mode, only=None):
     if info["extra"] and mode in ("all", "random") and cx.rng.random() < 0.5:
         a = O.A.Avp(99999990 + cx.rng.randrange(5), 0, bytes(cx.rng.getrandbits(8) for _ in range(cx.rng.randrange(0, 6))), 0)
         extras.append(a)
+    if info["extra"] and info["defs"] and mode in ("all", "random", "only") and cx.rng.random() < 0.35:
+        # an UNDECLARED AVP that shares its code with a declared attribute but carries another vendor id
+        from diameter.message.avp.avp import get_avp_dictionary_entry
+        d = cx.rng.choice(info["defs"])
+        for v2 in cx.rng.sample([9999999, 10415, 0, 5535], 4):
+            if v2 != d[2] and get_avp_dictionary_entry(d[1], v2) is None:
+                pl = bytes(cx.rng.getrandbits(8) for _ in range(cx.rng.choice([0, 4, 7])))
+                extras.append(O.A.Avp(d[1], v2, pl, 0x80 if v2 else 0))
+                break
     cx.cur_init = saved
     return {"cls": cname, "attrs": asg, "extras": extras}
 
